@@ -7,6 +7,7 @@ interpret the scripts; Process.current() is sampled inside every generated funct
 every await.  The chronological log (samples interleaved with the schedule markers) is what the Coq model
 (coq/Comms/Ctx.v) has to reproduce when it replays the schedule the real run followed."""
 import asyncio
+import contextlib
 import contextvars
 import json
 import warnings
@@ -91,7 +92,7 @@ def c_def(d):
 
 def model_log(obs):
     """the part of the log the model has to reproduce (probe / spawn / nest entries are oracle-only)"""
-    return [e for e in obs['log'] if e[0] in ('obs', 'run', 'ret', 'ext')]
+    return [e for e in obs['log'] if e[0] in ('obs', 'run', 'ret', 'ext', 'enter', 'exit')]
 
 
 def to_coq(case, obs):
@@ -106,6 +107,10 @@ def to_coq(case, obs):
         elif e[0] == 'ext':
             sched.append('(SExt %s)' % c_list([c_eact(a) for a in obs['exts'][e[1]]]))
             log.append('OExt')
+        elif e[0] == 'enter':
+            log.append('(OEnter %d %d %s)' % (e[1], e[2], c_list(['%d' % x for x in e[3]])))
+        elif e[0] == 'exit':
+            log.append('(OExit %d %d %s)' % (e[1], e[2], c_list(['%d' % x for x in e[3]])))
         else:
             log.append('(OCode %d %s %s)' % (e[1], c_kind(e[2]), c_opt(e[3], lambda n: '%d' % n)))
     return '(mk_c18 %s %s %s %s)' % (c_list([c_def(d) for d in case['defs']]), c_list(sched), c_nat(4000), c_list(log))
@@ -130,6 +135,11 @@ def _cur():
     return None if c is None else c.pid
 
 
+def _stack():
+    from plumpy import processes
+    return [p.pid for p in processes.PROCESS_STACK.get()]
+
+
 def _classes():
     """Process subclasses whose behaviour is the data in ENV[0] (built once, after plumpy is importable)."""
     if _CLS:
@@ -146,6 +156,18 @@ def _classes():
         def __init__(self, *a, **kw):
             super().__init__(*a, **kw)
             ENV[0].procs[self._pid] = self
+
+        # observe the anchor itself: the whole stack just before the scope is entered and just after it was left
+        @contextlib.contextmanager
+        def _process_scope(self):
+            env = ENV[0]
+            before = _stack()
+            try:
+                with super()._process_scope():
+                    env.log.append(['enter', env.cur_tid, self._pid, before])
+                    yield
+            finally:
+                env.log.append(['exit', env.cur_tid, self._pid, _stack()])
 
         # code that is NOT inside the scope but runs in the stepping task: what "other code" observes
         async def step(self):
@@ -227,6 +249,7 @@ class Env:
         self.errors = []
         self.exts = []
         self.ntasks = 0
+        self.cur_tid = None
         self.loop = Loop()
         nest_asyncio.apply(self.loop)
         orig = Loop._run_once
@@ -241,7 +264,11 @@ class Env:
         class LTask(asyncio.tasks._PyTask):
             def _Task__step(self, exc=None):
                 env.log.append(['run', self.c18_tid])
-                return super()._Task__step(exc)
+                prev, env.cur_tid = env.cur_tid, self.c18_tid
+                try:
+                    return super()._Task__step(exc)
+                finally:
+                    env.cur_tid = prev
 
         def factory(loop, coro, **kw):
             t = LTask.__new__(LTask)
@@ -332,6 +359,7 @@ class Env:
     def ext(self, acts):
         self.log.append(['ext', len(self.exts)])
         self.exts.append(acts)
+        self.cur_tid = self.ntasks
         self.ntasks += 1           # the model gives the environment's code a task id of its own
 
         def go():
@@ -435,6 +463,17 @@ def oracle(case, obs):
     for v in obs['env']:
         if v is not None:
             return {'signature': 'process_stack_leaks_into_the_environment', 'kind': 'restore', 'current': v}
+    # every scope exit restores exactly the stack its entry found (per task, well bracketed)
+    opened = {}
+    for n, e in enumerate(obs['log']):
+        if e[0] == 'enter':
+            opened.setdefault(e[1], []).append((e[2], e[3]))
+        elif e[0] == 'exit':
+            st = opened.get(e[1], [])
+            if not st or st[-1] != (e[2], e[3]):
+                return {'signature': 'scope_exit_does_not_restore_the_entry_stack', 'kind': 'restore', 'at': n, 'who': e[2],
+                        'stack_after': e[3], 'entry': list(st[-1]) if st else None}
+            st.pop()
     base, cur_task, nest = {}, None, []
     for n, e in enumerate(obs['log']):
         if e[0] == 'spawn':
@@ -689,13 +728,37 @@ class Gen:
         return {'defs': self.defs, 'roots': self.roots, 'ext': ext, 'choices': choices, 'sync': rng.random() < 0.3}
 
 
+def gen_all_orders(tier):
+    """small programs under EVERY choice of the ready callback for the first 6 callbacks (then FIFO)"""
+    import itertools
+    progs = [
+        # two roots, the first launches a child and schedules a callback on the second
+        {'defs': [mkdef([([S, ['launch', 2], S, Y, ['call_soon', 1, 0], S], 'continue'), ([S], 'continue')]),
+                  mkdef([([S, Y, S, Y, S], 'continue')], [[S, Y, S]]),
+                  mkdef([([S, Y, O, S], 'continue')])], 'roots': [0, 1]},
+        # a nested execute() next to a concurrently stepping root and a callback
+        {'defs': [mkdef([([S, ['call_soon', 0, 0], Y, ['exec', 2], S], 'continue')], [[S, Y, S]]),
+                  mkdef([([S, Y, S, Y, S], 'continue'), ([S], 'continue')]),
+                  mkdef([([S, Y, S], 'continue')])], 'roots': [0, 1]},
+        # three roots, one killed from a sibling's step
+        {'defs': [mkdef([([S, Y, S, Y, S], 'continue')]), mkdef([([S, Y, ['ctl', 0, 'kill'], S], 'continue')]),
+                  mkdef([([S, Y, S], 'continue'), ([S, O], 'continue')])], 'roots': [0, 1, 2]},
+    ]
+    width = 3 if tier == 'thorough' else 2
+    cases = []
+    for p in (progs if tier != 'quick' else progs[:2]):
+        for ch in itertools.product(range(width), repeat=6):
+            cases.append(dict(p, choices=list(ch)))
+    return cases
+
+
 def generate(tier, rng, around=None):
-    cases = gen_systematic(tier)
+    cases = gen_systematic(tier) + gen_all_orders(tier)
     nrand = {'quick': 500, 'thorough': 6000, 'widen': 1500}[tier]
     if tier == 'widen':
-        for c in around or []:
-            cases.append(c)
-            cases += list(shrink_candidates(c))
+        # the diverging cases again plus a larger random volume; their reductions are NOT added here: a reduction may
+        # leave the generator's envelope (e.g. a nested child that waits), shrinking proper is done by the driver
+        cases += list(around or [])
     for i in range(nrand):
         cases.append(Gen(rng, big=(tier != 'quick' and i % 2 == 0)).case())
     if tier == 'thorough':
@@ -705,7 +768,9 @@ def generate(tier, rng, around=None):
                 cases.append(dict(c, choices=[rng.randint(0, 3) for _ in range(30)]))
     return {'cases': cases, 'exhaustive': False,
             'scope': 'systematic families (2-3 roots x 5 step shapes x 3 orders; child launched/executed at every position; '
-                     'grandchildren; call_soon targets x positions x sync/async; control calls at every callback boundary) + %d random process trees' % nrand}
+                     'grandchildren; call_soon targets x positions x sync/async; control calls at every callback boundary); '
+                     '%s small programs under every choice among the first %d ready callbacks for the first 6 loop callbacks; '
+                     '+ %d random process trees' % ((3, 3, nrand) if tier == 'thorough' else (2, 2, nrand))}
 
 
 def shrink_candidates(case):
